@@ -1,4 +1,69 @@
 import TrimeshVerif.Model.Alias
 namespace TV.Alias
 
+variable {V : Type}
+
+/-- the Boolean checker decides disjointness -/
+theorem disjointB_iff (a b : List Cell) : disjointB a b = true ↔ ∀ c, c ∈ a → c ∉ b := by
+  simp [disjointB, List.all_eq_true]
+
+theorem disjointB_sound {a b : List Cell} (h : disjointB a b = true) : ∀ c, c ∈ a → c ∉ b :=
+  (disjointB_iff a b).1 h
+
+theorem disjointB_sound_symm {a b : List Cell} (h : disjointB a b = true) : ∀ c, c ∈ b → c ∉ a :=
+  fun c hb ha => disjointB_sound h c ha hb
+
+theorem write_of_ne (h : Cell → V) (c : Cell) (v : V) (x : Cell) (hx : x ≠ c) :
+    write h c v x = h x := by
+  simp [write, hx]
+
+theorem write_same (h : Cell → V) (c : Cell) (v : V) : write h c v c = v := by
+  simp [write]
+
+/-- edits leave every cell they do not name alone -/
+theorem applyEdits_of_not_written (h : Cell → V) (es : List (Cell × V)) (x : Cell)
+    (hx : ∀ e ∈ es, e.1 ≠ x) : applyEdits h es x = h x := by
+  induction es generalizing h with
+  | nil => rfl
+  | cons e es ih =>
+    obtain ⟨c, v⟩ := e
+    simp only [applyEdits]
+    rw [ih (write h c v) (fun e he => hx e (List.mem_cons_of_mem _ he))]
+    exact write_of_ne h c v x (fun hxc => hx (c, v) List.mem_cons_self hxc.symm)
+
+/-- edits confined to a set of cells leave any object avoiding that set unchanged -/
+theorem observe_applyEdits_of_avoid (h : Cell → V) (o : Obj) (es : List (Cell × V))
+    (hav : ∀ e ∈ es, e.1 ∉ o.cells) : observe (applyEdits h es) o = observe h o := by
+  unfold observe
+  apply List.map_congr_left
+  intro x hx
+  exact applyEdits_of_not_written h es x (fun e he hex => hav e he (hex ▸ hx))
+
+/-- reading the copied heap at the fresh name of a reachable cell gives the original contents -/
+theorem copyHeap_ren (h : Cell → V) (a : Obj) (ren : Cell → Cell)
+    (hinj : ∀ c ∈ a.cells, ∀ c' ∈ a.cells, ren c = ren c' → c = c')
+    (c : Cell) (hc : c ∈ a.cells) : copyHeap ren a h (ren c) = h c := by
+  unfold copyHeap
+  cases hf : a.cells.find? (fun c' => ren c' == ren c) with
+  | none =>
+    have := List.find?_eq_none.1 hf c hc
+    simp at this
+  | some c' =>
+    have hp := List.find?_some hf
+    have hm := List.mem_of_find?_eq_some hf
+    have : ren c' = ren c := by simpa using hp
+    simp [hinj c' hm c hc this]
+
+/-- reading the copied heap at a cell that is not a fresh name gives the old contents -/
+theorem copyHeap_of_not_fresh (h : Cell → V) (a : Obj) (ren : Cell → Cell) (x : Cell)
+    (hx : ∀ c ∈ a.cells, ren c ≠ x) : copyHeap ren a h x = h x := by
+  unfold copyHeap
+  cases hf : a.cells.find? (fun c' => ren c' == x) with
+  | none => rfl
+  | some c' =>
+    have hp := List.find?_some hf
+    have hm := List.mem_of_find?_eq_some hf
+    have : ren c' = x := by simpa using hp
+    exact absurd this (hx c' hm)
+
 end TV.Alias
